@@ -21,6 +21,9 @@ def run(ctx):
     trim_set(ctx, P)
     framing(ctx, P)
     parse(ctx, P)
+    # cleartext verification hashes through the window reader
+    from rules import c14
+    c14.reader_rules(ctx, P)
 
 
 def same_form(ctx, P):
